@@ -1160,7 +1160,7 @@ fn include_cmd(pair: Pair<Rule>) -> Vec<Cmd> {
 		.as_str().to_string();
 
 	let file_content = std::fs::read_to_string(&file)
-		.unwrap_or_else(|_| panic!("vicut: error reading included file '{file}'"));
+		.unwrap_or_else(|e| complain_and_exit(format!("error reading included file '{file}': {e}")));
 
 	let included_cmds = parse_vic(&file_content).unwrap_or_else(complain_and_exit);
 
